@@ -118,7 +118,17 @@ pub fn enumerate_test_cases(
     src: Arc<Mutex<dyn ParsingSource>>,
     input_path: &Path,
 ) -> MosResult<Vec<(SpanLoc, IdentifierPath)>> {
-    let mut ctx = generate(src, input_path, CodegenOptions::default())?;
+    // (assembled the way every test is going to be, so the same tests are found under the same names)
+    let mut predefined_constants = HashMap::new();
+    predefined_constants.insert("TEST".into(), 1);
+    let mut ctx = generate(
+        src,
+        input_path,
+        CodegenOptions {
+            predefined_constants,
+            ..Default::default()
+        },
+    )?;
     struct DummyMemoryAccessor;
     impl MemoryAccessor for DummyMemoryAccessor {
         fn read(&mut self, _: u16, _: usize) -> Vec<u8> {
@@ -133,6 +143,9 @@ pub fn enumerate_test_cases(
         .all()
         .into_iter()
         .filter(|(_, (_, data))| data.ty == SymbolType::TestCase && data.span.is_some())
+        // (a test in an imported file is also known under the names it was imported as: it is still one test, which has
+        // to be asked for by the name it was defined under)
+        .filter(|(name, (nx, _))| &ctx.symbols().defining_path(*nx) == name)
         .map(|(name, (_, data))| {
             let location = ctx.analysis().look_up(data.span.unwrap());
             (location, name)
@@ -182,6 +195,7 @@ impl TestRunner {
             .get(active_test.segment.as_ref().unwrap())
             .unwrap();
         let segment_bank = segment.options().bank.as_ref().unwrap();
+        let test_bank_name = Some(segment_bank.clone());
         let mut bw = BinaryWriter {};
         let test_bank = bw
             .merge_segments(&ctx)?
@@ -191,6 +205,25 @@ impl TestRunner {
         ram.write()
             .unwrap()
             .load_program(test_bank.range().start, test_bank.data());
+        // That is the bank as it is written to disk. In the machine there is a bit more: a segment that is kept out of
+        // the output file ('write = false') is in memory all the same, and the code of a segment that is assembled for
+        // another address than it is stored at ('pc') is, by the time it runs, at that other address.
+        for segment in ctx.segments().values() {
+            if segment.options().bank.as_ref() != Some(segment_bank) || segment.range().is_empty() {
+                continue;
+            }
+            if !segment.options().write {
+                ram.write()
+                    .unwrap()
+                    .load_program(segment.range().start, segment.range_data());
+            }
+            if segment.target_offset() != 0 {
+                let target_start = (segment.range().start as i64 + segment.target_offset()) as usize;
+                ram.write()
+                    .unwrap()
+                    .load_program(target_start, segment.range_data());
+            }
+        }
 
         let mut cpu = MOS6502::new();
         cpu.set_program_counter(active_test.data.as_i64() as u16);
@@ -200,8 +233,22 @@ impl TestRunner {
             Box::new(TestRunnerMemoryAccessor { ram: ram.clone() }),
         );
 
+        // Only what is in the bank of the test exists while it runs: an assertion in another bank may have the address of
+        // something in this one, but that is all they have in common.
+        let banks: HashMap<mos_core::parser::Identifier, Option<mos_core::parser::Identifier>> = ctx
+            .segments()
+            .iter()
+            .map(|(name, segment)| (name.clone(), segment.options().bank.clone()))
+            .collect();
+        let bank_of = |segment: Option<&mos_core::parser::Identifier>| {
+            segment.and_then(|name| banks.get(name).cloned().flatten())
+        };
         let tree = ctx.tree().clone();
-        let test_elements = ctx.remove_test_elements();
+        let test_elements = ctx
+            .remove_test_elements()
+            .into_iter()
+            .filter(|element| bank_of(element.segment()) == test_bank_name)
+            .collect();
         Ok(Self {
             ctx: Arc::new(Mutex::new(ctx)),
             tree,
